@@ -26,7 +26,9 @@ CASE_TIMEOUT = 300.0
 
 FINAL = ('success', 'failed', 'cancelled')
 OPS = ['queued', 'running', 'set_result', 'set_exc', 'set_exc_override', 'cancel', 'cancel_fatal', 'announce', 'add_cb', 'add_cleanup',
-       'fut_set_exc', 'fut_cancel', 'cancel_badexc', 'set_result_none']
+       'fut_set_exc', 'fut_cancel', 'cancel_badexc', 'set_result_none', 'add_cb_raising', 'add_cleanup_raising']
+# ('add_cb_raising' / 'add_cleanup_raising': a done callback / failure cleanup that RAISES when it is run - it counts as run, and has no
+# other effect on the transfer's state)
 # 'obs' (threads only): what a user sees - 'pending' while done has not been announced, afterwards what result() gives
 # 'final_task' (threads only): what Task.__call__ does for a transfer's final task - skip the work if the transfer is already done,
 # otherwise store the result; then announce done
@@ -104,9 +106,9 @@ class Ref:
             return ('ok', ('raise', self.exc) if self.exc is not None else ('ret', self.result))
         elif op == 'announce':
             self._announce()
-        elif op == 'add_cb':
+        elif op in ('add_cb', 'add_cb_raising'):
             self.cbs_pending += 1
-        elif op == 'add_cleanup':
+        elif op in ('add_cleanup', 'add_cleanup_raising'):
             self.cl_pending += 1
         elif op == 'fut_set_exc':
             if not self.done():
@@ -136,6 +138,16 @@ class Real:
     def _cl(self):
         with self.lock:
             self.cl_ran += 1
+
+    def _cb_raising(self):
+        with self.lock:
+            self.cbs_ran += 1
+        raise ValueError('vf: this done callback fails')
+
+    def _cl_raising(self):
+        with self.lock:
+            self.cl_ran += 1
+        raise OSError('vf: this cleanup fails')
 
     def apply(self, op, step):
         from s3transfer.exceptions import FatalError, TransferNotDoneError
@@ -180,6 +192,10 @@ class Real:
                 c.add_done_callback(self._cb)
             elif op == 'add_cleanup':
                 c.add_failure_cleanup(self._cl)
+            elif op == 'add_cb_raising':
+                c.add_done_callback(self._cb_raising)
+            elif op == 'add_cleanup_raising':
+                c.add_failure_cleanup(self._cl_raising)
             elif op == 'fut_set_exc':
                 e = KeyError(f'U{step}')
                 self.sym[id(e)] = ('U', step)
@@ -279,9 +295,9 @@ def explore(depth, ops):
         if remaining == 0:
             return
         for op in ops:
-            if op == 'add_cb' and ref.cbs_pending + ref.cbs_ran >= 2:
+            if op in ('add_cb', 'add_cb_raising') and ref.cbs_pending + ref.cbs_ran >= 2:
                 continue
-            if op == 'add_cleanup' and ref.cl_pending + ref.cl_ran >= 2:
+            if op in ('add_cleanup', 'add_cleanup_raising') and ref.cl_pending + ref.cl_ran >= 2:
                 continue
             ref2, real2 = replay(path)
             done_before = real2.future.done()
